@@ -74,13 +74,19 @@ pub fn check(c: &Case, st: &mut Stats) -> CheckResult {
 
 pub fn run(ctx: &Ctx, rep: &mut Report) {
     rep.assume(ASSUME_REF);
-    rep.assume("a seed whose rejection sampling hits a value exactly equal to q cannot be constructed (hash preimage); that boundary is covered compositionally by C15 (CoeffFromThreeBytes on all 2^24 inputs)");
+    rep.assume("seeds whose rejection sampling meets a candidate exactly equal to q, or needs unusually many candidates / bytes, are not constructed but found by an offline SHAKE-only search (corpus/xof_extremes, vcheck xofsearch); the single-coefficient boundary itself is covered by C15 (CoeffFromThreeBytes on all 2^24 inputs)");
     run_generated(ctx, rep, "generated", ctx.n(24_000, 400_000), strategy, check);
+    // seeds found by an offline SHAKE-only search: rare sampler events (many rejections in one matrix entry, a
+    // candidate equal to q / q-1, also as the last candidate of a SHAKE128 block, extreme RejBoundedPoly lengths)
+    let rare: Vec<Case> = rare_seed_cases().into_iter().map(|(set, i)| Case { set, seed: Seed32::RareSampler(i) }).collect();
+    crate::engine::run_list(rep, "rare_sampler_seeds", &rare, check);
+    rare_seed_maxima(rep.stats("rare_sampler_seeds"));
+    crate::props::history::run(ctx, rep, 2500, 60000);
 }
 
 pub fn replay(_ctx: &Ctx, sub: &str, case: &Value) -> Option<CheckResult> {
     if sub == "raw_bytes" {
         return crate::fuzzglue::replay_raw("C04", case);
     }
-    (sub == "generated").then(|| check(&from_case::<Case>(case), &mut Stats::default()))
+    (sub == "generated" || sub == "rare_sampler_seeds").then(|| check(&from_case::<Case>(case), &mut Stats::default()))
 }
